@@ -440,6 +440,29 @@ theorem plot_outcome (s : GenState ℝ) (ds : List ℝ) (ax : Bool)
     unfold arrayDb
     rw [policyArray_clamps]; rfl
 
+/-- R8 (equivalent entry points forward every argument): the linear-scale query
+    is `dB2Linear(−·)` of the dB query WITH THE SAME wall count, the
+    linear-scale inverse is the dB inverse of `−linear2dB(·)` WITH THE SAME wall
+    count, the plot helper computes exactly the array query, and a free-space
+    object is the general model with the computed constant. -/
+theorem equivalent_entry_points :
+    (∀ (s : Ps7State ℝ) (nw : Int) d, s.linScalar nw d = toLin (s.dbScalar nw d)) ∧
+    (∀ (s : Ps7State ℝ) (nw : Int) p, s.whichLin nw p = s.whichDb nw (-(Gen.linear2dB p))) ∧
+    (∀ (s : GenState ℝ) d, s.linScalar d = toLin (s.dbScalar d)) ∧
+    (∀ (s : GenState ℝ) p, s.whichLin p = Gen.generalWhichDb s.n s.C (-(Gen.linear2dB p))) ∧
+    (∀ (n fc : ℝ) d, (fsInit n fc).detDb d = (generalInit n (Gen.fsCalcC fc n)).detDb d) :=
+  ⟨fun _ _ _ => rfl, fun _ _ _ => rfl, fun _ _ => rfl, fun _ _ => rfl, fun _ _ _ => rfl⟩
+
+/-- R9 / R14 (counts, also above 256): for EVERY wall count `w ≥ 1` the NLOS
+    loss is the one-wall loss plus `5·(w − 1)` dB — linear in the count, nothing
+    wraps around; the count enters only through its value. -/
+theorem ps7_wall_count_linear (s : Ps7State ℝ) (w : Nat) (hw : 1 ≤ w) (d : ℝ) :
+    s.detDb w d = s.detDb 1 d + 5 * ((w : ℝ) - 1) := by
+  unfold Ps7State.detDb
+  rw [if_neg (by omega), if_neg (by omega), ps7NlosDb_real, ps7NlosDb_real]
+  push_cast
+  ring
+
 /-! ## non-vacuity -/
 
 /-- the hypotheses of the theorems above are met by concrete non-trivial objects -/
